@@ -6,7 +6,10 @@ if [ -n "$(git status --porcelain --untracked-files=no)" ]; then echo "/repo not
 git apply "$PATCH" || { echo "patch does not apply"; exit 2; }
 cd /verif
 for id in "$@"; do
+  cp evidence/$id.json /tmp/try_seed_evidence_$id.json 2>/dev/null
   ./check $id --tier ${TIER:-quick} > /tmp/try_seed_$id.log 2>&1; rc=$?
   echo "$id exit=$rc $(grep -c '^VIOLATION' /tmp/try_seed_$id.log) violation lines; first: $(grep -A1 '^VIOLATION' /tmp/try_seed_$id.log | sed -n 2p | cut -c1-200)"
+  # the evidence written while the seeded change was applied must not replace the evidence of the real tree
+  cp /tmp/try_seed_evidence_$id.json evidence/$id.json 2>/dev/null
 done
 git -C /repo checkout -- .
